@@ -70,7 +70,7 @@ MANIFEST = {
             "with the machine; monitors: address reused among live asks, foreign reply, never resolved, resolved twice). On every run the current "
             "future.go is instrumented and hundreds of random (thorough: + depth-first, preemption bound 2) schedules of {reply, error "
             "reply, second reply, timeout, Close, Forward, Result} are replayed step by step in Coq; a stress harness drives the real "
-            "ActorSystem (1/2/8/16 askers x 6 target behaviours x system / actor context / typed helper) and checks per ask: completes "
+            "ActorSystem (1/2/8/16 askers x 7 target behaviours (incl. an error piped through another future's Forward) x system / actor context / typed helper) and checks per ask: completes "
             "within timeout+slack, once, with its own sequence number or the timeout or its own error reply; reply address released. "
             "Creation of a future (RegModel: New -> Register -> Initialize as separate atomic steps — publish in the registry, f.rc, f.ref, arm "
             "the timer — in the order the machine is given, against the timer goroutine, which may run immediately after it is armed, and any "
